@@ -186,6 +186,33 @@ def check_manager(case):
     return None
 
 
+def check_manager_frame(case):
+    """add_frame_result with target_uuids: a non-detection failure is never a point inside the scaled box of ANY annotated object, target or not"""
+    import types
+    import numpy as np
+    from perception_eval.common.dataset import FrameGroundTruth
+    from perception_eval.evaluation.sensing.sensing_frame_config import SensingFrameConfig
+    from perception_eval.manager.sensing_evaluation_manager import SensingEvaluationManager
+    m = SensingEvaluationManager.__new__(SensingEvaluationManager)
+    m.evaluator_config = types.SimpleNamespace(metrics_params=dict(box_scale_0m=case["s0"], box_scale_100m=case["s100"], min_points_threshold=1),
+                                               filtering_params=dict(target_uuids=None))
+    m.frame_results = []
+    gts = [obj(d) for d in case["gts"]]
+    for o, d in zip(gts, case["gts"]):
+        o.uuid = d["uuid"]
+    frame = FrameGroundTruth(0, "0", gts, transforms=build.ego_matrix(None))
+    cfg = SensingFrameConfig(case["target_uuids"], case["s0"], case["s100"], 1)
+    pts = np.array(case["points"], dtype=float).reshape(-1, 3)
+    res = m.add_frame_result(0, frame, pts, [prism_corners(a) for a in case["areas"]], sensing_frame_config=cfg)
+    for cloud in res.pointcloud_failed_non_detection:
+        for p in np.asarray(cloud).reshape(-1, 3).tolist():
+            for d in case["gts"]:
+                scale = case["s0"] + (case["s100"] - case["s0"]) * math.sqrt(d["x"] ** 2 + d["y"] ** 2 + d["z"] ** 2) / 100.0
+                if in_prism(p, box_poly(d, scale), d["z"] - d["size"][2] / 2, d["z"] + d["size"][2] / 2):
+                    return f"point {p} is reported as a non-detection failure although it lies inside the scaled box of the annotated object {d['uuid']} (targets: {case['target_uuids']})"
+    return None
+
+
 def prism_corners(a):
     """a prism as the library takes it: upper corners then lower corners"""
     return [(x, y, a["z1"]) for x, y in a["poly"]] + [(x, y, a["z0"]) for x, y in a["poly"]]
@@ -263,11 +290,28 @@ def search(item, seed):
             why = f"raised {type(ex).__name__}: {ex}"
         if why:
             return dict(function="SensingEvaluationManager.crop_pointcloud", input=case, observed=why)
+        if len(gts) >= 2:
+            for k, g in enumerate(gts):
+                g["uuid"] = f"u{k}"
+            case2 = dict(case, target_uuids=[g["uuid"] for g in gts[:rng.randint(1, len(gts) - 1)]])
+            try:
+                why = check_manager_frame(case2)
+            except Exception as ex:
+                why = f"raised {type(ex).__name__}: {ex}"
+            if why:
+                return dict(function="SensingEvaluationManager.add_frame_result", input=case2, observed=why)
     return None
 
 
 def replay(payload):
     i = payload["input"]
+    if "target_uuids" in i:
+        for g in i["gts"]:
+            g["size"] = tuple(g["size"])
+        for a in i["areas"]:
+            a["poly"] = [tuple(v) for v in a["poly"]]
+        why = check_manager_frame(i)
+        return (why is None, why or "ok")
     if "areas" in i:
         for g in i["gts"]:
             g["size"] = tuple(g["size"])
